@@ -337,7 +337,8 @@ theorem ip6Aton_length (t : List Nat) (a : Bytes) (h : ip6Aton t = some a) : a.l
 def WireKind (tn : String) (i : Nat) : FK → Bool
   | .uint max => decide (max < 256 ^ widthOf max)
   | .cstr _ mb _ => isRestField tn i || (match mb with | some m => decide (m ≤ 255) | none => false)
-  | .hexOne | .b64One | .nameRaw | .rcode => false
+  | .hexOne => false
+  | .b64One | .nameRaw | .rcode => tn == "TSIG"      -- TSIG lays these out in schema order; HIP and TKEY do not
   | _ => true
 
 /-- the encoding of the field at index `i` (as in `encFields`) -/
@@ -401,6 +402,8 @@ theorem bytesMax_le (m : Nat) (v b : Bytes) (h : bytesMax (some m) v = some b) :
   split at h
   · cases h
   · injection h with h; subst h; omega
+
+theorem rcodeFit : ∀ p ∈ ConstsC05.rcodeNames, p.2 ≤ 4095 := by decide +kernel
 
 theorem field_encodable_extra (tn : String) (O : Name) (i : Nat) (k : FK) (t : Tok) (v : FV)
     (h : parseFieldExtra k t = some v) (hk : WireKind tn i k = true) :
@@ -524,10 +527,29 @@ theorem field_encodable_extra (tn : String) (O : Name) (i : Nat) (k : FK) (t : T
             exact packGuard_isSome _ _ (by simp; omega)
         · cases h
     · cases h
+  | gpos lim =>
+    simp only [parseFieldExtra] at h
+    split at h
+    · split at h
+      · cases h
+      · split at h
+        · injection h with h; subst h
+          exact packGuard_isSome _ _ (by simp; omega)
+        · cases h
+    · cases h
   | hexOne => cases hk
-  | b64One => cases hk
-  | rcode => cases hk
-  | nameRaw => cases hk
+  | b64One =>
+    simp only [parseFieldExtra] at h
+    split at h
+    · obtain ⟨b, _, rfl⟩ := map_b_some h; rfl
+    · cases h
+  | rcode =>
+    simp only [parseFieldExtra] at h
+    split at h
+    · obtain ⟨n, hn, rfl⟩ := map_n_some h
+      have := enumFromText_le _ _ 4095 rcodeFit _ _ hn
+      exact packGuard_isSome _ _ (by simp; omega)
+    · cases h
   | _ => simp [parseFieldExtra] at h
 
 theorem encOne_noncstr (tn : String) (o : Option Name) (i : Nat) (k : FK) (v : FV)
@@ -572,7 +594,16 @@ theorem field_encodable (tn : String) (env : PEnv) (O : Name) (hO : isAbs O = tr
       subst h
       simp only [encField, encName, hO, if_true]
       split <;> rfl
-  | nameRaw => cases hk
+  | nameRaw =>
+    rw [encOne_noncstr _ _ _ _ _ (by intro a b c e; cases e)]
+    simp only [parseField] at h
+    cases hn : asName t none false none with
+    | none => simp [hn] at h
+    | some n =>
+      simp only [hn, Option.map_some, Option.some.injEq] at h
+      subst h
+      simp only [encField, encName, hO, if_true]
+      split <;> rfl
   | cstr mt mb q =>
     simp only [parseField] at h
     split at h
@@ -665,9 +696,16 @@ theorem field_encodable (tn : String) (env : PEnv) (O : Name) (hO : isAbs O = tr
   | b32hex =>
     rw [encOne_noncstr _ _ _ _ _ (by intro a b c e; cases e)]
     exact field_encodable_extra tn O i _ t v (by simpa [parseField] using h) hk
+  | gpos lim =>
+    rw [encOne_noncstr _ _ _ _ _ (by intro a b c e; cases e)]
+    exact field_encodable_extra tn O i _ t v (by simpa [parseField] using h) hk
   | hexOne => cases hk
-  | b64One => cases hk
-  | rcode => cases hk
+  | b64One =>
+    rw [encOne_noncstr _ _ _ _ _ (by intro a b c e; cases e)]
+    exact field_encodable_extra tn O i _ t v (by simpa [parseField] using h) hk
+  | rcode =>
+    rw [encOne_noncstr _ _ _ _ _ (by intro a b c e; cases e)]
+    exact field_encodable_extra tn O i _ t v (by simpa [parseField] using h) hk
 
 /-! ### all prefix fields, the tail, the record -/
 
@@ -755,19 +793,201 @@ theorem map_sb_some {o : Option Bytes} {tail : Option FV} (h : o.map (fun b => s
   | some b => injection h with h; exact ⟨b, h.symm⟩
 
 def WireTail : TK → Bool
-  | .names | .b64Opt | .tsigOther | .gateway _ _ | .apl | .wks => false
+  | .names | .b64Opt => false      -- HIP, TKEY: not claimed (16-bit length fields, see KNOWN_FINDINGS)
   | _ => true
 
-theorem tail_encodable (env : PEnv) (vals : List FV) (tk : TK) (toks : List Tok) (tail : Option FV)
-    (h : parseTailE env vals tk toks = some tail) (hk : WireTail tk = true) : (encTail tk tail).isSome = true := by
+theorem trimZeros_length_le (a : Bytes) : (trimZeros a).length ≤ a.length := by
+  unfold trimZeros
+  rw [List.length_reverse]
+  have := (List.dropWhile_sublist (fun x => x == 0) (l := a.reverse)).length_le
+  simpa using this
+
+theorem aplBody_encodable (neg : Bool) (item : List Nat) (it : Nat × Bool × Bytes × Nat)
+    (h : parseAplBody neg item = some it) : (encAplItem it).isSome = true := by
+  unfold parseAplBody at h
+  split at h
+  · cases h
+  · split at h
+    · cases h
+    · split at h
+      · cases h
+      · split at h
+        · cases h
+        · split at h
+          · cases h
+          · split at h
+            · cases h
+            · split at h
+              · split at h
+                · rename_i a ha
+                  split at h
+                  · injection h with h; subst h
+                    have hl := ip4Aton_length _ _ ha
+                    have := trimZeros_length_le a
+                    apply packGuard_isSome
+                    simp only [Bool.and_eq_true, decide_eq_true_eq]
+                    omega
+                  · cases h
+                · cases h
+              · split at h
+                · split at h
+                  · rename_i a ha
+                    split at h
+                    · injection h with h; subst h
+                      have hl := ip6Aton_length _ _ ha
+                      have := trimZeros_length_le a
+                      apply packGuard_isSome
+                      simp only [Bool.and_eq_true, decide_eq_true_eq]
+                      omega
+                    · cases h
+                  · cases h
+                · cases h
+
+theorem aplItem_encodable (t : Tok) (it : Nat × Bool × Bytes × Nat) (h : parseAplItem t = some it) :
+    (encAplItem it).isSome = true := by
+  unfold parseAplItem at h
+  split at h
+  · cases h
+  · cases h
+  · split at h
+    · exact aplBody_encodable _ _ _ h
+    · exact aplBody_encodable _ _ _ h
+
+theorem apl_encodable (toks : List Tok) (items : List (Nat × Bool × Bytes × Nat)) (h : parseApl toks = some items) :
+    (encAplItems items).isSome = true := by
+  induction toks generalizing items with
+  | nil => simp [parseApl] at h; subst h; rfl
+  | cons t ts ih =>
+    simp only [parseApl] at h
+    split at h
+    · rename_i it r hit hr
+      injection h with h; subst h
+      have e1 := aplItem_encodable t it hit
+      have e2 := ih r hr
+      simp only [encAplItems]
+      cases ha : encAplItem it with
+      | none => simp [ha] at e1
+      | some a =>
+        cases hb : encAplItems r with
+        | none => simp [hb] at e2
+        | some b => rfl
+    · cases h
+
+theorem gatewayTok_encodable (env : PEnv) (O : Name) (hO : isAbs O = true) (ty : Nat) (t : Tok) (addr : List Nat) (nm : Name)
+    (h : parseGatewayTok env ty t = some (addr, nm)) : (encGateway (some O) ty addr nm).isSome = true := by
+  unfold parseGatewayTok at h
+  unfold encGateway
+  split at h
+  · split at h
+    · split at h
+      · rename_i h0
+        split at h
+        · injection h with h; injection h with h1 h2; subst h1; subst h2; simp [h0]
+        · cases h
+      · rename_i h0
+        split at h
+        · rename_i h1
+          split at h
+          · rename_i hv
+            injection h with h; injection h with e1 e2; subst e1; subst e2
+            simp [h1, hv]
+          · cases h
+        · rename_i h1
+          have h2 : ty = 2 := by omega
+          split at h
+          · rename_i hv
+            injection h with h; injection h with e1 e2; subst e1; subst e2
+            simp [h2, hv]
+          · cases h
+    · cases h
+  · split at h
+    · rename_i h3
+      cases hn : asName t env.origin env.relativize env.relTo with
+      | none => simp [hn] at h
+      | some n =>
+        simp only [hn, Option.map_some, Option.some.injEq, Prod.mk.injEq] at h
+        obtain ⟨_, rfl⟩ := h
+        simp only [h3, encName, hO]
+        simp
+        split <;> rfl
+    · cases h
+
+theorem tail_encodable (env : PEnv) (O : Name) (hO : isAbs O = true) (vals : List FV) (tk : TK) (toks : List Tok) (tail : Option FV)
+    (h : parseTailE env vals tk toks = some tail) (hk : WireTail tk = true) : (encTail (some O) tk tail).isSome = true := by
   unfold parseTailE at h
   cases tk with
   | names => cases hk
   | b64Opt => cases hk
-  | tsigOther => cases hk
-  | gateway _ _ => cases hk
-  | apl => cases hk
-  | wks => cases hk
+  | tsigOther =>
+    simp only [parseTail] at h
+    split at h
+    · split at h
+      · injection h with h; subst h; rfl
+      · cases h
+    · split at h
+      · cases h
+      · split at h
+        · split at h
+          · split at h
+            · injection h with h; subst h; rfl
+            · cases h
+          · cases h
+        · cases h
+    · cases h
+  | gateway ti ai =>
+    simp only [parseGateway] at h
+    split at h
+    · rename_i ty t rest _
+      split at h
+      · cases h
+      · rename_i addr nm hg
+        have hgw := gatewayTok_encodable env O hO ty t addr nm hg
+        cases hge : encGateway (some O) ty addr nm with
+        | none => simp [hge] at hgw
+        | some g =>
+          split at h
+          · split at h
+            · injection h with h; subst h; simp [encTail, hge]
+            · cases h
+          · split at h
+            · split at h
+              · obtain ⟨k, rfl⟩ : ∃ k, tail = some (.gw ty addr nm k) := by
+                  rename_i s _
+                  cases hd : b64Decode s with
+                  | none => simp [hd] at h
+                  | some k => simp [hd] at h; exact ⟨k, h.symm⟩
+                simp [encTail, hge]
+              · cases h
+            · cases h
+    · cases h
+  | apl =>
+    simp only [parseTail] at h
+    cases hp : parseApl toks with
+    | none => simp [hp] at h
+    | some items =>
+      simp only [hp, Option.map_some, Option.some.injEq] at h
+      subst h
+      exact apl_encodable toks items hp
+  | wks =>
+    simp only [parseTail, parseWks] at h
+    split at h
+    · split at h
+      · split at h
+        · cases h
+        · rename_i addr ha
+          split at h
+          · split at h
+            · cases h
+            · split at h
+              · injection h with h; subst h
+                have := ip4Aton_length _ _ ha
+                apply packGuard_isSome
+                simp only [Bool.and_eq_true, decide_eq_true_eq]
+                omega
+              · cases h
+          · cases h
+      · cases h
+    · cases h
   | none =>
     simp only [reduceCtorEq, if_false, parseTail] at h
     split at h
@@ -838,14 +1058,14 @@ theorem tail_encodable (env : PEnv) (vals : List FV) (tk : TK) (toks : List Tok)
 
 /-- schemas all of whose parts have a wire form in the model with checked ranges -/
 def schemaEncodable (tn : String) (sch : Schema) : Bool :=
-  sch.wire && wireKinds tn 0 sch.fields && WireTail sch.tail
+  wireKinds tn 0 sch.fields && WireTail sch.tail
 
 theorem record_encodable (tn : String) (sch : Schema) (env : PEnv) (O : Name) (hO : isAbs O = true)
     (hs : schemaEncodable tn sch = true) (toks : List Tok) (vals : List FV) (tail : Option FV)
     (h : parseRec sch env toks = some (vals, tail)) : (encRec tn sch (some O) vals tail).isSome = true := by
   unfold parseRec at h
   simp only [schemaEncodable, Bool.and_eq_true] at hs
-  obtain ⟨⟨_, hf⟩, ht⟩ := hs
+  obtain ⟨hf, ht⟩ := hs
   split at h
   · cases h
   · rename_i vals' rest hpf
@@ -855,12 +1075,12 @@ theorem record_encodable (tn : String) (sch : Schema) (env : PEnv) (O : Name) (h
       split at h
       · injection h with h; injection h with h1 h2; subst h1; subst h2
         have e1 := fields_encodable tn env O hO sch.fields 0 toks vals' rest hpf hf
-        have e2 := tail_encodable env vals' sch.tail rest tail' hpt ht
+        have e2 := tail_encodable env O hO vals' sch.tail rest tail' hpt ht
         unfold encRec
         cases ha : encFields tn (some O) 0 sch.fields vals' with
         | none => simp [ha] at e1
         | some a =>
-          cases hb : encTail sch.tail tail' with
+          cases hb : encTail (some O) sch.tail tail' with
           | none => simp [hb] at e2
           | some b => rfl
       · cases h
